@@ -24,6 +24,7 @@
 #include "util/options.h"
 #include "util/slice.h"
 #include "util/status.h"
+#include "util/verif.h"
 
 #include "filename.h"
 #include "table_cache.h"
@@ -143,6 +144,14 @@ find_table(ldb_tables_t *cache,
       *handle = ldb_lru_insert(cache->lru, &key, entry, 1, &delete_entry);
     }
   }
+
+#ifdef LCDB_VERIF
+  if (rc == LDB_OK && *handle != NULL) {
+    /* the caller now holds a pin on this cache entry; w carries the table's id */
+    LCDB_ACC("tcpin", *handle,
+             LCDB_ID(((table_entry_t *)ldb_lru_value(*handle))->table));
+  }
+#endif
 
   return rc;
 }
